@@ -209,6 +209,10 @@ class InlineTranslator:
                     return atom
             # replace headrule body aggregate with inlined version of the conditions
             new_elements = self.compute_new_body_elements(rule, replace_cond, replace_elem, agg, atom, unique_vars)
+            # the unfolded tuples are longer than the replaced one and may now meet the tuple of another element
+            if any(potentially_unifying_sequence(x.terms, new.terms) for x in rest_elems for new in new_elements):
+                log.info(f"Cannot inline {str(hpred)} into {str(atom)} as the tuple is not unique.")
+                return atom
             return atom.update(function=result_function, elements=rest_elems + new_elements)
         return atom
 
